@@ -92,6 +92,9 @@ func main() {
 		} else {
 			worldWorker()
 		}
+	case "schedone":
+		initHits()
+		schedOne()
 	case "drive":
 		os.Exit(drive())
 	case "replay":
